@@ -10,7 +10,7 @@
 From Coq Require Import List NArith Bool.
 Import ListNotations.
 From AnySync Require Import Model.OCache Proofs.OCacheProofs Proofs.OCacheSim Proofs.OCacheAccept
-  Proofs.OCacheCorollaries Proofs.OCacheLive.
+  Proofs.OCacheCorollaries Proofs.OCacheLive Proofs.OCacheGap.
 Open Scope N_scope.
 
 (* The whole property as the executable trace predicate that the correspondence check also evaluates on every
@@ -101,6 +101,59 @@ Theorem c16_accepted_satisfies_spec : forall n steps, accept n steps = true -> s
 Proof. exact accepted_satisfies_spec. Qed.
 Print Assumptions c16_accepted_satisfies_spec.
 
+(* The same for the interleaving families of the check (schedules forced at lock-region granularity, observed as
+   [CFine] cases: per scheduler action the goroutines that were not frozen at a gate and the events logged). *)
+Theorem c16_fine_accepted_is_model_trace : forall steps,
+  accept_fine steps = true ->
+  exists ls s, run fixed init ls = Some s /\ obs s = fine_events steps /\ panicked s = false.
+Proof. exact accept_fine_sound. Qed.
+Print Assumptions c16_fine_accepted_is_model_trace.
+
+Theorem c16_fine_accepted_satisfies_spec : forall steps,
+  accept_fine steps = true -> spec_C16 (fine_events steps) = true.
+Proof. exact fine_accepted_satisfies_spec. Qed.
+Print Assumptions c16_fine_accepted_satisfies_spec.
+
+(* Check-then-act gaps.  TryRemove / GC test the entry's state under c.mu, release c.mu and only then claim the
+   entry (setClosing); Remove / RemoveSame / Close look it up under c.mu and claim it later.  Whatever other
+   goroutines did in between (the hypothesis is only "reachable state, thread t sits between check and claim"):
+   the entry still exists and carries a loaded instance; the claim takes it only if it is active at that moment
+   (then Close/TryClose of exactly that instance is entered), and if another closer holds it or HAS FINISHED with
+   it the claim backs off (try-close path: result false; removeCtx: wait, resp. result false) without touching
+   entry, map or instance and without a harness-visible event. *)
+Theorem c16_tryclose_gap_claim : forall ls s t r k,
+  run fixed init ls = Some s -> threads s t = TrSetClosing r k ->
+  exists e n, heap s r = Some e /\ e_value e = Some n /\ e_loaddone e = true /\ e_failed e = false /\
+    ((e_state e = SActive /\
+      step_core fixed s t AStep =
+        Some (set_pc (set_entry s r (set_closing e)) t (TrInTry r n k), Some (ETryEntry t n))) \/
+     ((e_state e = SClosing \/ e_state e = SClosed) /\
+      step_core fixed s t AStep = Some (set_pc s t (tk_done k (ROk false)), None))).
+Proof. exact tryclose_gap_claim. Qed.
+Print Assumptions c16_tryclose_gap_claim.
+
+Theorem c16_remove_gap_claim : forall ls s t r k,
+  run fixed init ls = Some s -> threads s t = RmSetClosing r k ->
+  exists e n, heap s r = Some e /\ e_value e = Some n /\ e_loaddone e = true /\ e_failed e = false /\
+    ((e_state e = SActive /\
+      step_core fixed s t AStep =
+        Some (set_pc (set_entry s r (set_closing e)) t (RmInClose r n k), Some (ECloseEntry t n))) \/
+     (e_state e = SClosing /\
+      step_core fixed s t AStep = Some (set_pc s t (RmBlock r (e_epoch e) k), None)) \/
+     (e_state e = SClosed /\
+      step_core fixed s t AStep = Some (set_pc s t (rk_done k (ROk false)), None))).
+Proof. exact remove_gap_claim. Qed.
+Print Assumptions c16_remove_gap_claim.
+
+(* a complete removal that fits into TryRemove's / GC's gap makes the late claim a no-op *)
+Theorem c16_claim_after_completed_removal : forall ls s t r k e s' ev,
+  run fixed init ls = Some s -> threads s t = TrSetClosing r k ->
+  heap s r = Some e -> e_state e = SClosed ->
+  step_core fixed s t AStep = Some (s', ev) ->
+  ev = None /\ heap s' = heap s /\ data s' = data s /\ threads s' t = tk_done k (ROk false).
+Proof. exact claim_after_completed_removal. Qed.
+Print Assumptions c16_claim_after_completed_removal.
+
 (* No global deadlock: whenever some call is unfinished, some step is possible — a thread's own move, or the
    return of a harness-owned callback that is in progress (those return labels are always enabled in the model:
    "LoadFunc / Close / TryClose eventually return").  Every awaited channel has a live owner: a thread blocked on
@@ -181,6 +234,60 @@ Example c16_accept_needs_search :
              [ECall 2 (CPick 1); ERet 2 RErrNotExists]] in
   accept_fast 4 tr = false /\ accept 4 tr = true /\ spec_C16 (concat tr) = true.
 Proof. vm_compute. repeat split. Qed.
+
+(* ---------------------------------------------------------------- the check-then-act gap *)
+
+(* TryRemove(1) passes its activity check, a whole Remove(1) runs in the gap, TryRemove's claim backs off. *)
+Definition sched_gap_prefix : list (N * act) :=
+  [ (2, ACall (CGet 1)); (2, AStep); (2, AStep); (2, AStep); (2, ALoadEnd (Some 1)); (2, AStep);
+    (0, ACall (CTryRemove 1)); (0, AStep);
+    (1, ACall (CRemove 1)); (1, AStep); (1, AStep); (1, AStep); (1, ACloseExit); (1, AStep) ].
+Definition sched_gap : list (N * act) := sched_gap_prefix ++ [ (0, AStep); (0, AStep) ].
+
+(* the hypotheses of c16_claim_after_completed_removal are satisfiable: after the prefix thread 0 sits in the gap
+   and its entry is closed *)
+Example c16_gap_nonvacuous :
+  exists s e, run fixed init sched_gap_prefix = Some s /\ threads s 0 = TrSetClosing 0 KTry /\
+              heap s 0 = Some e /\ e_state e = SClosed /\ e_value e = Some 1 /\ data s 1 = None.
+Proof.
+  destruct (run fixed init sched_gap_prefix) as [s|] eqn:E; [| vm_compute in E; discriminate].
+  vm_compute in E. inversion E; subst; clear E. eexists. eexists. repeat split; reflexivity.
+Qed.
+
+Example c16_gap_run :
+  option_map obs (run fixed init sched_gap) =
+  Some [ ECall 2 (CGet 1); ELoadStart 2 1; ELoadEnd 2 1 (Some 1); ERet 2 (RVal 1);
+         ECall 0 (CTryRemove 1); ECall 1 (CRemove 1); ECloseEntry 1 1; ECloseExit 1 1; ERet 1 (ROk true);
+         ERet 0 (ROk false) ].
+Proof. vm_compute. reflexivity. Qed.
+
+(* the same schedule as the interleaving families observe it on the real cache (thread 2 preloads the instance;
+   thread 0 is frozen in front of e.mx while thread 1 moves) is accepted ... *)
+Definition fine_gap_clean : list (list N * list event) :=
+  [ ([0; 1; 2], [ECall 2 (CGet 1); ELoadStart 2 1]); ([0; 1; 2], [ELoadEnd 2 1 (Some 1); ERet 2 (RVal 1)]);
+    ([0; 1; 2], [ECall 0 (CTryRemove 1)]); ([0; 1; 2], []);
+    ([1; 2], [ECall 1 (CRemove 1)]); ([1; 2], []); ([1; 2], [ECloseEntry 1 1]);
+    ([1; 2], [ECloseExit 1 1; ERet 1 (ROk true)]);
+    ([0; 1; 2], [ERet 0 (ROk false)]) ].
+Example c16_accept_fine_nonvacuous :
+  accept_fine fine_gap_clean = true /\ spec_C16 (fine_events fine_gap_clean) = true.
+Proof. vm_compute. split; reflexivity. Qed.
+
+(* ... and what a cache whose TryRemove does not back off from a closed entry shows in that schedule (observed on a
+   mutant of the real code: TryClose is entered on the instance Remove has closed) is rejected by both checks;
+   so is an observation in which a frozen goroutine moves *)
+Example c16_fine_rejects_reclaim :
+  let tr := [ ([0; 1; 2], [ECall 2 (CGet 1); ELoadStart 2 1]); ([0; 1; 2], [ELoadEnd 2 1 (Some 1); ERet 2 (RVal 1)]);
+              ([0; 1; 2], [ECall 0 (CTryRemove 1)]); ([0; 1; 2], []);
+              ([1; 2], [ECall 1 (CRemove 1)]); ([1; 2], []); ([1; 2], [ECloseEntry 1 1]);
+              ([1; 2], [ECloseExit 1 1; ERet 1 (ROk true)]);
+              ([0; 1; 2], [ETryEntry 0 1]); ([0; 1; 2], [ETryExit 0 1 true]) ] in
+  spec_C16 (fine_events tr) = false /\ accept_fine tr = false.
+Proof. vm_compute. split; reflexivity. Qed.
+Example c16_fine_rejects_frozen_move :
+  accept_fine [ ([0; 1], [ECall 0 (CAdd 1 1)]); ([1], [ERet 0 RNil]) ] = false /\
+  accept_fine [ ([0; 1], [ECall 0 (CAdd 1 1)]); ([0; 1], [ERet 0 RNil]) ] = true.
+Proof. vm_compute. split; reflexivity. Qed.
 
 (* ---------------------------------------------------------------- the ORIGINAL code (cfg [legacy]) violates the property *)
 
